@@ -16,6 +16,7 @@ import (
 	"strconv"
 	"strings"
 	"sync"
+	"sync/atomic"
 	"time"
 
 	ierrors "github.com/aptpod/iscp-go/errors"
@@ -28,7 +29,40 @@ import (
 	"verif/internal/rng"
 )
 
-var wd = 4 * time.Second // watchdog for every library call and every awaited effect (VERIF_WD_MS overrides: mutation self-tests)
+// Watchdog for every wait of the harness (library calls, awaited effects, setup, teardown): nothing
+// waits unboundedly.  It starts at wdBase and shrinks to 300 ms once three waits have expired in
+// one run: a change that makes the library hang must not turn the run into hundreds of full-length
+// waits (every expiry is already a direct violation of its case, and that case is abandoned).
+var wdBase = 4 * time.Second // VERIF_WD_MS overrides
+var wdExpired int32
+
+func wd() time.Duration {
+	if atomic.LoadInt32(&wdExpired) >= 3 && wdBase > 300*time.Millisecond {
+		return 300 * time.Millisecond
+	}
+	return wdBase
+}
+func noteExpiry() { atomic.AddInt32(&wdExpired, 1) }
+
+func waitFor(cond func() bool) bool {
+	if broker.WaitFor(wd(), cond) {
+		return true
+	}
+	noteExpiry()
+	return false
+}
+
+func guarded(f func()) bool {
+	done := make(chan struct{})
+	go func() { defer close(done); f() }()
+	select {
+	case <-done:
+		return true
+	case <-time.After(wd()):
+		noteExpiry()
+		return false
+	}
+}
 
 const (
 	kCall = iota
@@ -231,6 +265,7 @@ func waitDone(c *caller, d time.Duration) bool {
 	case <-c.done:
 		return true
 	case <-time.After(d):
+		noteExpiry()
 		return false
 	}
 }
@@ -269,11 +304,12 @@ func runCase(c *caseIn) (res result) {
 	select {
 	case err := <-errCh:
 		if err != nil {
-			res.direct = "harness: connect failed: " + err.Error()
+			res.direct = "connection setup failed: " + err.Error()
 			return
 		}
-	case <-time.After(wd):
-		res.direct = "harness: connect blocked"
+	case <-time.After(wd()):
+		noteExpiry()
+		res.direct = "Blocked: iscp.Connect did not return within the watchdog"
 		return
 	}
 	if c.Slow {
@@ -303,9 +339,14 @@ func runCase(c *caseIn) (res result) {
 	inflight, maxInflight := 0, 0
 	inSeq := 0
 	qCalls, qReplies := 0, 0
+	blocked := false // a wait of this case expired: the rest of the script is abandoned
 	expectReturn := func(cl *caller, t int, why string) {
-		if !waitDone(cl, wd) {
-			directs = append(directs, fmt.Sprintf("caller %d did not return within the watchdog %s", t, why))
+		if blocked {
+			return
+		}
+		if !waitDone(cl, wd()) {
+			blocked = true
+			directs = append(directs, fmt.Sprintf("Blocked: caller %d did not return within the watchdog %s", t, why))
 		} else {
 			cl.returned = true
 			inflight--
@@ -359,8 +400,10 @@ func runCase(c *caseIn) (res result) {
 			}
 			e.mu.Unlock()
 			return true
-		case <-time.After(d + wd):
-			directs = append(directs, "ReceiveCall/ReceiveReplyCall did not return within its context deadline + watchdog")
+		case <-time.After(d + wd()):
+			noteExpiry()
+			blocked = true
+			directs = append(directs, "Blocked: ReceiveCall/ReceiveReplyCall did not return within its context deadline + watchdog")
 			return false
 		}
 	}
@@ -376,6 +419,10 @@ func runCase(c *caseIn) (res result) {
 	_ = nInReply
 
 	for si, st := range c.Steps {
+		if blocked {
+			directs = append(directs, fmt.Sprintf("script abandoned at step %d of %d", si, len(c.Steps)))
+			break
+		}
 		switch st.Op {
 		case "call":
 			for _, t := range st.Callers {
@@ -385,8 +432,9 @@ func runCase(c *caseIn) (res result) {
 				// nothing reaches the broker: the callers return at once; log them in script order
 				for _, t := range st.Callers {
 					cl := e.callers[t]
-					if !waitDone(cl, wd) {
-						directs = append(directs, fmt.Sprintf("caller %d did not return within the watchdog on a closed connection", t))
+					if !blocked && !waitDone(cl, wd()) {
+						blocked = true
+						directs = append(directs, fmt.Sprintf("Blocked: caller %d did not return within the watchdog on a closed connection", t))
 					}
 					cl.returned = true
 					e.mu.Lock()
@@ -395,7 +443,7 @@ func runCase(c *caseIn) (res result) {
 				}
 				break
 			}
-			ok := broker.WaitFor(wd, func() bool {
+			ok := waitFor(func() bool {
 				e.mu.Lock()
 				defer e.mu.Unlock()
 				for _, t := range st.Callers {
@@ -406,7 +454,8 @@ func runCase(c *caseIn) (res result) {
 				return true
 			})
 			if !ok {
-				directs = append(directs, fmt.Sprintf("step %d: an UpstreamCall never reached the broker within the watchdog", si))
+				blocked = true
+				directs = append(directs, fmt.Sprintf("Blocked: step %d: an UpstreamCall never reached the broker within the watchdog", si))
 			}
 			inflight += len(st.Callers)
 			if inflight > maxInflight {
@@ -502,8 +551,10 @@ func runCase(c *caseIn) (res result) {
 		case "recv", "recvreply":
 			reply := st.Op == "recvreply"
 			for i := 0; i < st.N && queued(reply) > 0; i++ {
-				if !recvOne(reply, wd) {
-					directs = append(directs, fmt.Sprintf("step %d: an incoming call that was sent (and fits the inbox) was not handed out within the watchdog", si))
+				if !recvOne(reply, wd()) {
+					noteExpiry()
+					blocked = true
+					directs = append(directs, fmt.Sprintf("Blocked: step %d: an incoming call that was sent (and fits the inbox) was not handed out within the watchdog", si))
 					break
 				}
 			}
@@ -521,29 +572,27 @@ func runCase(c *caseIn) (res result) {
 			// kill the link between call and ack; the keepalive notices, the connection redials
 			idx := len(b.Sessions())
 			b.Current().Link.Sever(memtr.Loud)
-			if s := b.WaitSession(idx, wd); s == nil {
-				res.direct = "no redial within the watchdog after the link was cut"
+			if s := b.WaitSession(idx, wd()); s == nil {
+				noteExpiry()
+				res.direct = "Blocked: no redial within the watchdog after the link was cut"
 				return
-			} else if !broker.WaitFor(wd, func() bool { return s.Pings.Load() >= 1 }) {
+			} else if !waitFor(func() bool { return s.Pings.Load() >= 1 }) {
 				// the first keepalive ping of the new wire connection: the handshake is over
-				directs = append(directs, "redialled session never completed its handshake")
+				blocked = true
+				directs = append(directs, "Blocked: redialled session never completed its handshake")
 			}
 			res.special++
 		case "close":
 			e.mu.Lock()
 			e.log = append(e.log, ev{k: 'L'})
 			e.mu.Unlock()
-			closed := make(chan struct{})
-			go func() {
+			if !guarded(func() {
 				ctx, cancel := context.WithTimeout(context.Background(), 2*time.Second)
 				defer cancel()
 				conn.Close(ctx)
-				close(closed)
-			}()
-			select {
-			case <-closed:
-			case <-time.After(wd):
-				directs = append(directs, "Conn.Close did not return within the watchdog")
+			}) {
+				blocked = true
+				directs = append(directs, "Blocked: Conn.Close did not return within the watchdog")
 			}
 			closedConn = true
 			for t, cl := range e.callers {
@@ -558,14 +607,21 @@ func runCase(c *caseIn) (res result) {
 	}
 	// drain both inboxes, then make sure nothing more comes out
 	drained := true
-	if !closedConn {
+	if blocked {
+		drained = false
+	} else if !closedConn {
 		for _, reply := range []bool{false, true} {
 			for queued(reply) > 0 {
-				if !recvOne(reply, wd) {
-					directs = append(directs, "an incoming call that was sent (and fits the inbox) was never handed out")
+				if !recvOne(reply, wd()) {
+					noteExpiry()
+					blocked = true
+					directs = append(directs, "Blocked: an incoming call that was sent (and fits the inbox) was never handed out")
 					drained = false
 					break
 				}
+			}
+			if blocked {
+				break
 			}
 			if recvOne(reply, 15*time.Millisecond) {
 				directs = append(directs, "the inbox handed out more calls than arrived")
@@ -597,18 +653,23 @@ func runCase(c *caseIn) (res result) {
 	// teardown
 	if !closedConn {
 		closedConn = true
-		ctx, cancel := context.WithTimeout(context.Background(), 2*time.Second)
-		done := make(chan struct{})
-		go func() { conn.Close(ctx); close(done) }()
-		select {
-		case <-done:
-		case <-time.After(wd):
-			directs = append(directs, "Conn.Close did not return within the watchdog")
+		if !guarded(func() {
+			ctx, cancel := context.WithTimeout(context.Background(), 2*time.Second)
+			defer cancel()
+			conn.Close(ctx)
+		}) {
+			directs = append(directs, "Blocked: Conn.Close did not return within the watchdog")
 		}
-		cancel()
+		deadline := time.Now().Add(wd()) // one watchdog for all callers together
 		for t, cl := range e.callers {
-			if cl.started && !waitDone(cl, wd) {
-				directs = append(directs, fmt.Sprintf("caller %d still blocked %v after the connection was closed", t, wd))
+			if cl.started {
+				left := time.Until(deadline)
+				if left < time.Millisecond {
+					left = time.Millisecond
+				}
+				if !waitDone(cl, left) {
+					directs = append(directs, fmt.Sprintf("Blocked: caller %d still blocked after the connection was closed", t))
+				}
 			}
 		}
 	}
@@ -896,7 +957,7 @@ func main() {
 	replay := flag.String("replay", "", "replay file")
 	flag.Parse()
 	if v, err := strconv.Atoi(os.Getenv("VERIF_WD_MS")); err == nil && v > 0 {
-		wd = time.Duration(v) * time.Millisecond
+		wdBase = time.Duration(v) * time.Millisecond
 	}
 	w := coqfmt.NewWriter(*out, "C16", "From Iscp Require Import Model.Correlate.", "e2e_case", "e2e_judge", 60)
 	r := rng.New(*seed)
@@ -947,11 +1008,6 @@ func main() {
 			defer wg.Done()
 			defer func() { <-sem }()
 			res := runCase(j.c)
-			if strings.HasPrefix(res.direct, "harness:") {
-				ib, _ := json.Marshal(j.c)
-				fmt.Fprintln(os.Stderr, res.direct, j.kind, string(ib)[:min(len(ib), 3000)])
-				os.Exit(3)
-			}
 			if res.term == "" { // the case was abandoned (direct violation): judge an empty history
 				res.term = "mkE2eCase [] [] [] [] [] false"
 			}
